@@ -5,6 +5,7 @@ CONSTANTS
   Want = 2
   Cancels = {FALSE}
   Lates = {FALSE, TRUE}
+  ClosingCheck = FALSE
   Stops = {FALSE}
 INVARIANTS TypeOK NoPanic Complete
 PROPERTIES Termination
